@@ -1,5 +1,5 @@
 PROP = dict(
-    coq=["Stage/PassHarness.vo", "Pipe/PipeHarness.vo", "Pipe/PipeExamples.vo"],
+    coq=["Stage/PassHarness.vo", "Pipe/PipeHarness.vo", "Pipe/PipeExamples.vo", "Stage/PassTests.vo"],
     legs=[
         dict(driver="pass", quick=600, thorough=30000, shard=50, noshrink=True,
              monitors=["finished_exactly_once", "wellformed_at_stage_boundaries", "finish_iff_tree_done",
@@ -11,16 +11,16 @@ PROP = dict(
                        "seed_in_one_place_at_a_time"]),
     ],
     partial="Go scheduler / channel runtime are taken to implement the interleaving semantics of the LTS (channels as bags: "
-            "FIFO order is not needed by any theorem). Termination of every execution (a decreasing measure) is not proved yet: "
-            "deadlock freedom + 'stuck implies everything finished' are; the per-seed pass bound is C06's. The theorems are stated "
-            "relative to the two per-seed statements of Stage/PassSpec.v until Stage/PassProofs.v closes them; the correspondence "
-            "check exercises exactly those statements pass by pass against the real stage workers.",
+            "FIFO order is not needed by any theorem). Termination (an explicit bound on the length of every execution) is proved for "
+            "--domains-crawl off, the case for which C06 bounds the passes of a seed; with it on, safety, deadlock freedom and 'stuck "
+            "implies everything finished' stand. The per-seed statements of Stage/PassSpec.v are proved (Stage/PassProofs.v) and are also "
+            "exercised pass by pass against the real stage workers.",
     assumptions=["channels are linearizable bags of capacity WorkersCount; the reactor API is atomic at call granularity (C12)",
                  "stage workers own a seed exclusively between receive and send",
                  "queue row ids are pairwise distinct (UNIQUE primary key of lq.db)"],
     level_text="Theorems over ALL label sequences of the pipeline LTS (every interleaving of reactor, stage workers and finisher for any "
                "worker count, every site behaviour through per-pass oracles): no panic, finished at most once and only with no pending "
-               "node, conservation of queue rows, token accounting, deadlock freedom, stuck => all finished exactly once. Tied to the "
+               "node, conservation of queue rows, token accounting, deadlock freedom, stuck => all finished exactly once, every execution finite with an explicit bound (domains-crawl off); per seed: no stage panics, well-formed at every boundary, Finish iff nothing pending, no URL fetched by two nodes. Tied to the "
                "code twice: (1) the real reactor/preprocessor/postprocessor/finisher workers replayed pass by pass against the stage "
                "model; (2) whole real crawls (controler.Start/Stop, local queue, WARC writer, origin server, perturbed schedules, "
                "W in 1..4, asset concurrency 1..3) whose hook-event traces are replayed through PipeLts.step.",
